@@ -6,7 +6,7 @@ import gpos
 from ufo import build, err_kind, rat
 
 ID = "C06"
-PROOF_FILES = ["C06Parse", "C06Lists", "C06Classes", "C06Color", "C06Entries", "C06Inv", "C06Cov", "C06Exist", "C06Build", "C06Pipe", "C06Attach", "C06AttachBase", "C06AttachLig", "C06AttachMkmk", "C06Sound", "C06Complete", "C06"]
+PROOF_FILES = ["C06Parse", "C06Lists", "C06Classes", "C06Color", "C06Entries", "C06Inv", "C06Cov", "C06Exist", "C06Build", "C06Pipe", "C06Attach", "C06AttachBase", "C06AttachLig", "C06AttachMkmk", "C06Sound", "C06Complete", "C06Order", "C06"]
 THEOREM = ("Ufo2ft.C06.C06_offset / C06_candidate / C06_sound / C06_ligature / C06_complete / C06_holds / C06_error / "
            "groups_no_shared_mark / colorGraph_is_proper / firstAvailable_smallest / C06_parse_shape / C06_parse_mark / "
            "C06_parse_lig / C06_parse_null / C06_candidate_order_partial / C06_offset_general / C06_ctx_offset / C06_ctx_holds / "
@@ -860,8 +860,14 @@ LEVEL_TEXT = ("Proved in Lean for ALL inputs (any number of glyphs/anchors/class
 LEVEL_NOTE = ("Hypothesis `wf`: glyph names distinct, every glyph in the abvm or the not-abvm set, no hand-written mark class, no object-lib "
               "data; anchor names are arbitrary - names that ast.makeFeaClassName reduces to the same class name get different classes "
               "(C06_classes_injective; the old merging is kept as C06_collision_old_counterexample). One finding is open: a key that "
-              "feaLib cannot lex in a lookup name breaks mark-to-mark. Not proved: WHICH candidate wins when "
-              "several keys match (C06_candidate_order_partial; the property allows any) - tied by correspondence only. Trusted: Lean kernel "
+              "feaLib cannot lex in a lookup name breaks mark-to-mark. WHICH candidate wins when several keys match (the property allows "
+              "any): proved for the mark-to-base lookups of any one feature in the default mode (Props/C06Order.lean, "
+              "C06_candidate_order_base_partial, and for all lookups of the `mark` feature C06_candidate_order_mark_partial: the lookups are one per anchor key in ascending key order, the last applicable lookup "
+              "wins, so the pair of the GREATEST matching key that passes the feature's anchor filter is attached, at exactly its "
+              "anchor difference; hypotheses on the anchor lists of _getAnchorLists; non-vacuity example with keys top / top.alt). Not "
+              "proved: the winner in groupMarkClasses mode (depends on the greedy colouring; last colour group in sort order), for "
+              "mark-to-ligature and mark-to-mark lookups, across features (abvm, blwm, mark, mkmk order) and restated on source "
+              "anchors - those are tied by correspondence only (C06_candidate_order_partial gives the key order of the groups). Trusted: Lean kernel "
               "+ standard axioms; the correspondence harness and harness/gpos.py; feaLib's compilation of the generated statements; GDEF "
               "classes / abvm glyph sets / glyph order are inputs. Contextual anchors ('*' + GPOS_Context object-lib data) are modelled (Model/C06Ctx.lean): proved are the soundness of every contextual attachment (C06_ctx_offset), that plain lookups never use a contextual anchor and stay sound in their presence (C06_offset_general), the exact frame without object-lib data (C06_frame) and the error conditions; completeness of the contextual lookups (C06_ctx_complete: referenced lookup of the right feature attaches, context dispatched; proviso: no second contextual anchor of the glyph with the same context and key - otherwise false, C06_ctx_ligature_last_wins_counterexample) and of the plain lookups when object-lib data is present (C06_complete_general); both predicates are also evaluated on the observed font. The dispatch (chaining) statements are compared as generated feature TEXT; the compiled ChainContextPos rules are checked against that text by the harness (restricted grammar) and the referenced lookups are evaluated in the compiled GPOS. Not modelled: contexts without '*' (feaLib rejects them), append mode and "
               "variable fonts, GSUB closure of abvm glyphs. Hand-written markClass definitions are modelled (compared exactly) but outside `wf`: the theorems assume the feature file defines none.")
